@@ -337,6 +337,87 @@ func c12TreeEdits(c *explore.Ctx, s *explore.SubStats, cfgs []fmtCfg) {
 			dirs(f.Directives)
 			sel(f.SelectionSet)
 		}
+		// names the parser did not lex: every name site (operation, variable, field, alias, argument, object field,
+		// directive, fragment, spread, type condition) renamed, one at a time, to names using every digit and underscores
+		var names []*string
+		var vnames func(v *ast.Value)
+		vnames = func(v *ast.Value) {
+			if v == nil {
+				return
+			}
+			if v.Kind == ast.Variable || v.Kind == ast.EnumValue {
+				names = append(names, &v.Raw)
+			}
+			for _, ch := range v.Children {
+				if v.Kind == ast.ObjectValue {
+					names = append(names, &ch.Name)
+				}
+				vnames(ch.Value)
+			}
+		}
+		nargs := func(as ast.ArgumentList) {
+			for _, a := range as {
+				names = append(names, &a.Name)
+				vnames(a.Value)
+			}
+		}
+		ndirs := func(ds ast.DirectiveList) {
+			for _, x := range ds {
+				names = append(names, &x.Name)
+				nargs(x.Arguments)
+			}
+		}
+		var nsel func(ss ast.SelectionSet)
+		nsel = func(ss ast.SelectionSet) {
+			for _, x := range ss {
+				switch n := x.(type) {
+				case *ast.Field:
+					names = append(names, &n.Name, &n.Alias)
+					nargs(n.Arguments)
+					ndirs(n.Directives)
+					nsel(n.SelectionSet)
+				case *ast.FragmentSpread:
+					names = append(names, &n.Name)
+					ndirs(n.Directives)
+				case *ast.InlineFragment:
+					if n.TypeCondition != "" {
+						names = append(names, &n.TypeCondition)
+					}
+					ndirs(n.Directives)
+					nsel(n.SelectionSet)
+				}
+			}
+		}
+		for _, op := range d.Operations {
+			if op.Name != "" {
+				names = append(names, &op.Name)
+			}
+			for _, vd := range op.VariableDefinitions {
+				names = append(names, &vd.Variable)
+				vnames(vd.DefaultValue)
+				ndirs(vd.Directives)
+			}
+			ndirs(op.Directives)
+			nsel(op.SelectionSet)
+		}
+		for _, f := range d.Fragments {
+			names = append(names, &f.Name, &f.TypeCondition)
+			ndirs(f.Directives)
+			nsel(f.SelectionSet)
+		}
+		for ni, np := range names {
+			for _, nn := range []string{"a9", "x0123456789", "_9_", "Z_", "onn", "nul"} {
+				idx++
+				if idx%c.NShards != c.Shard {
+					continue
+				}
+				orig := *np
+				*np = nn
+				s.States++
+				c12Doc(c, s, d, fmt.Sprintf("profile %d with name %d of %d (%s) renamed to %s: %s", di, ni, len(names), orig, nn, text), cfgs)
+				*np = orig
+			}
+		}
 		for si, site := range sites {
 			for ri, rep := range replacements {
 				idx++
